@@ -57,8 +57,11 @@ CHECKS += [
       level_note=PURE_NOTE),
 ]
 
+CHECKS.append(dict(property_id="C18", engine="LOG", technique="model-based property testing: rapid-generated operation programs against an abstract log (MemoryStorage; raftLog via VerifLog with a lagging write queue; one async RawNode against a scripted consistent cluster and a reference follower), plus exhaustive enumeration of short MemoryStorage programs",
+      level_claimed=dict(category="exploration", text="Three drivers compare every query (first/last index, term-at for all indexes, full and size-limited ranges, error codes, append-safety) after every mutation with an abstract log: L1 MemoryStorage through its public API (also every legal program of length <=4/5 over a small alphabet), L2 the combined stable+unstable view with stale/lost/reordered persistence acks filtered like raft.Step, L3 a real RawNode with AsyncStorageWrites whose storage threads lag arbitrarily while a scripted tree of leaders overwrites its tail (the ABA shape) - compared with a textbook reference follower.", design_ref="DESIGN.md 5/C18"),
+      level_note="Trusted base: the abstract log / reference follower models in harness/logm, the script's leader-completeness rule, and the pass-through VerifLog hook."))
+
 NOT_YET = {
- "C18": "check under construction in this session (LOG engine); will be claimed when committed",
  "C19": "check under construction in this session (REPLAY engine); will be claimed when committed",
 }
 
@@ -84,6 +87,8 @@ def main():
         engines=[
             dict(name="SIM", path="harness/sim", serves_properties=sorted(p for p in claimed if p not in ("C12","C13","C18","C19")),
                  kind_free_text="deterministic cluster simulator over RawNode; every choice is a rapid draw; monitors are invariants over the history"),
+            dict(name="LOG", path="harness/logm", serves_properties=["C18"],
+                 kind_free_text="model-based tests of MemoryStorage, raftLog (VerifLog hook) and a single async RawNode against an abstract log / reference follower"),
             dict(name="PURE", path="harness/pure", serves_properties=["C12", "C13"],
                  kind_free_text="function-level property tests against reference models (harness/refmodel); exhaustive small domains + rapid-generated inputs"),
         ],
